@@ -386,7 +386,7 @@ Proof.
   apply Hall. unfold new_writes. apply Forall_app. split.
   - destruct hide; [|constructor]. constructor; [|constructor].
     intros t [Hg [Hp [Hs Hv]]]. destruct t as [r c0 at0 v sy p pe lg]. simpl in *. subst p pe at0.
-    cbn. repeat split; auto. discriminate.
+    unfold idle. cbn. repeat split; auto.
   - destruct frames as [|F0 Fs]; [constructor|]. simpl in Hf. apply andb_true_iff in Hf. destruct Hf as [H0 Hs].
     destruct anim.
     + constructor; [intros t Ht; apply exec_text_frame; assumption|].
